@@ -350,8 +350,16 @@ func (r Relation) Format(f fmt.State, verb rune) {
 	fu.WriteString(f, "{")
 
 	attrs := r.attrs.GetSorted()
-	fu.Fprintf(f, "|%s| ", strings.Join(attrs, ", "))
 	projection := r.projectionBasedOnNames(attrs)
+	// A heading can only hold identifiers; other names need the quoting that
+	// tuples give them.
+	asTuples := false
+	for _, attr := range attrs {
+		asTuples = asTuples || !identRE.MatchString(attr)
+	}
+	if !asTuples {
+		fu.Fprintf(f, "|%s| ", strings.Join(attrs, ", "))
+	}
 	notFirst := false
 	for i := r.rows.OrderedRange(projection); i.Next(); {
 		if notFirst {
@@ -359,7 +367,11 @@ func (r Relation) Format(f fmt.State, verb rune) {
 		} else {
 			notFirst = true
 		}
-		fu.Format(i.Values().project(projection), f, verb)
+		if asTuples {
+			fu.Format(valuesToTuple(i.Values(), r.attrMap), f, verb)
+		} else {
+			fu.Format(i.Values().project(projection), f, verb)
+		}
 	}
 
 	fu.WriteString(f, "}")
